@@ -30,6 +30,7 @@ ASSUMPTIONS = [
 ]
 SAMPLE_EVERY = 401
 
+NAME_INFIX = ["QuickStartGuide", "BusStopInfo", "SceneChange", "RefreshFinishedList", "StatusUpdatedView", "NonStop"]
 _T = {"clock": 0, "trace": [], "ends": {}, "umim": [], "cur_owner": None, "installed": False}
 
 
@@ -394,6 +395,15 @@ def run_case(case):
         if tname == "shared-action":
             # co-winners share the action: owners = the instances of fa and fb (declared by the template)
             static["extra_owners"] = {"SharedAction": lambda st: {f.uid for fid in ("fa", "fb") for f in st.flow_id_states.get(fid, [])}}
+    # legal action type names that merely CONTAIN the words event names are built from (Start, Stop, Change, Finished, Updated)
+    infix = None
+    if rng.random() < 0.3:
+        import re as _re
+
+        infix = rng.choice(NAME_INFIX)
+        src = _re.sub(r"\b([A-Z][A-Za-z0-9]*?)Action\(", lambda m_: m_.group(1) + infix + "Action(", src)
+        if "extra_owners" in static:
+            static["extra_owners"] = {k_.replace("Action", infix + "Action"): v_ for k_, v_ in static["extra_owners"].items()}
     base = {"key": repr((src, pre, hist, case["seed"] if case["fam"] == "hier" else 0)), "fam": tname, "sample": {"program": src, "history": list(pre) + hist}}
     if not _T["installed"]:
         return dict(base, verdict="inconclusive", reason="hook-missing")
@@ -414,6 +424,7 @@ def run_case(case):
         "late_started_events_fed": sh.late_started,
         "start_flow_events": sum(sh.starts_of.values()),
         "fam_" + tname: 1,
+        "action_names_with_event_word_infix": int(infix is not None),
     }
     base["sample"]["fed"] = fed
     if sh.problems:
